@@ -9,7 +9,9 @@ Open Scope string_scope.
 
 Record case := mk_case {
   c_root : string;                         (* hp.rootPath *)
+  c_hasfile : bool;                        (* a config.yml exists before the first run *)
   c_file : list (string * value);          (* what the project file gives, decoded *)
+  c_hist : list (list string);             (* batch lines run (real Run) on the same project before this one *)
   c_tokens : list string;                  (* the batch line after strings.Fields *)
   c_pf : list (string * option Z);         (* strconv.ParseFloat of every argument value *)
   c_obs : option (list (string * value))   (* None: log.Fatal; Some: fields differing from the defaults *)
@@ -36,7 +38,8 @@ Fixpoint fields_ok (diff : list (string * value)) (cfg : config) (s : schema) : 
   end.
 
 Definition case_ok (s : schema) (c : case) : bool :=
-  match read_config (pf_of (c_pf c)) (c_root c) s (fun k => assoc k (c_file c)) (c_tokens c), c_obs c with
+  match read_config_seq (pf_of (c_pf c)) (c_root c) s
+          (if c_hasfile c then Some (fun k => assoc k (c_file c)) else None) (c_hist c) (c_tokens c), c_obs c with
   | None, None => true
   | Some cfg, Some diff =>
       fields_ok diff cfg s &&
